@@ -15,4 +15,10 @@ import SwcVerif.Props.C05
 #print axioms C18.getDsu_labels_are_components
 #print axioms C18.repair_somas
 #print axioms C18.repair_nearest_partial
+#print axioms Dsu.linkLoop_inv
+#print axioms C18.repair_nearest_tree
+#print axioms Dsu.cycle_strict
+#print axioms Dsu.jumpLoop_terminates
+#print axioms C18.getDsu_total
+#print axioms C18.isSingleRoot_total
 #print axioms C05.isSorted_iff
